@@ -431,7 +431,10 @@ func alphabet(sp *spec) []string {
 		"RCAcur", "RCAold", "RCAnc", "RCAnew", "RCAalt",
 		"RCNcur", "RCNold", "RCNnc", "RCNnew",
 		"RCJcur", "RCJold", "RCJnc", "RCJnew",
-		"RTR", "RTA", "UNK", "CRJcrit", "CRJother"}
+		"RTR", "RTA", "UNK", "CRJcrit", "CRJother",
+		// Terminate-Ack carrying the identifier of the latest Configure-Request / of the latest Terminate-Request
+		// (the plain RTA carries a random one); the full packet-type x identifier-class grid is idclass_test.go
+		"RTA@cur", "RTA@term"}
 	if sp.proto == "LCP" {
 		// SPR = SendProtocolReject called by the server, SER = SendEchoRequest called directly,
 		// KA = one tick of the session keep-alive ticker (virtual time) which calls SendEchoRequest
@@ -477,6 +480,9 @@ func (c *caseCtx) applicable(kind string) bool {
 		}
 		return c.mon.hasID(cls)
 	}
+	if _, pcls := peerKind(k); pcls != "" {
+		return c.mon.hasPktID(pcls)
+	}
 	switch k {
 	case "SPR", "SER", "KA":
 		return c.lcp != nil
@@ -486,10 +492,10 @@ func (c *caseCtx) applicable(kind string) bool {
 	return true
 }
 
-var walkOnly = []string{"RCRunk", "RCRperm", "RCRmax", "RCRall", "ADV:half", "ADV:rt-1", "ADV:rt+1", "ADV:2rt", "RCApeer", "RCNpeer", "RCJpeer", "RACE:RCNold", "RACE:RCJnc", "RACE:RCAnew"}
+var walkOnly = []string{"RTA@old", "RTA@nc", "RTA@new", "RTR@term", "RTR@cur", "CRJcrit@cur", "CRJother@term", "EREP@nc", "EREP", "RCRunk", "RCRperm", "RCRmax", "RCRall", "ADV:half", "ADV:rt-1", "ADV:rt+1", "ADV:2rt", "RCApeer", "RCNpeer", "RCJpeer", "RACE:RCNold", "RACE:RCJnc", "RACE:RCAnew"}
 
 func handlerOf(kind string) string {
-	k := strings.TrimPrefix(kind, "RACE:")
+	k, _ := peerKind(kind)
 	switch {
 	case k == "Up" || k == "Down" || k == "Open" || k == "Close":
 		return k
@@ -519,6 +525,8 @@ func handlerOf(kind string) string {
 		return "receiveProtocolReject"
 	case strings.HasPrefix(k, "ECHO"):
 		return "receiveEchoRequest"
+	case k == "EREP":
+		return "receiveEchoReply"
 	}
 	return "ReceivePacket"
 }
@@ -694,7 +702,6 @@ func (c *caseCtx) replyOpts(code byte, r *rand.Rand) []topt {
 // harness observed (the packets the automaton handed to the send callback).
 // The caller has checked applicable(kind).
 func (c *caseCtx) concretise(kind string, r *rand.Rand) (p []byte, ok bool) {
-	cur := c.mon.ourID
 	if code, cls := replyClass(kind); cls != "" {
 		id, ok := c.mon.idFor(cls, r)
 		if !ok {
@@ -717,6 +724,19 @@ func (c *caseCtx) concretise(kind string, r *rand.Rand) (p []byte, ok bool) {
 	if p, ok := c.concretiseContent(kind, r); ok {
 		return p, true
 	}
+	if base, pcls := peerKind(kind); pcls != "" {
+		// a peer packet other than Configure-Ack/-Nak/-Reject whose identifier is taken from what the automaton
+		// was observed to use (idclass_test.go)
+		id, ok := c.mon.pktIDFor(pcls, r)
+		if !ok {
+			return nil, false
+		}
+		return c.peerPacket(base, id, r)
+	}
+	switch kind {
+	case "RTR", "RTA", "CRJcrit", "CRJother", "PRJlcp", "PRJother", "DISCARD", "EREP":
+		return c.peerPacket(kind, byte(r.IntN(256)), r)
+	}
 	switch kind {
 	case "RCR+":
 		return mkPkt(cConfReq, byte(r.IntN(256)), encOpts(c.reqOpts(r, "good"))), true
@@ -726,10 +746,6 @@ func (c *caseCtx) concretise(kind string, r *rand.Rand) (p []byte, ok bool) {
 		return mkPkt(cConfReq, byte(r.IntN(256)), encOpts(c.reqOpts(r, "rej"))), true
 	case "RCRmix":
 		return mkPkt(cConfReq, byte(r.IntN(256)), encOpts(c.reqOpts(r, "mix"))), true
-	case "RTR":
-		return mkPkt(cTermReq, byte(r.IntN(256)), []byte("bye")[:r.IntN(4)]), true
-	case "RTA":
-		return mkPkt(cTermAck, byte(r.IntN(256)), nil), true
 	case "UNK":
 		// a code the automaton does not implement: LCP answers with a Code-Reject, which consumes one
 		// of its identifiers (12 = Identification, 13 = Time-Remaining, 14 = Reset-Request are real codes)
@@ -738,14 +754,6 @@ func (c *caseCtx) concretise(kind string, r *rand.Rand) (p []byte, ok bool) {
 			codes = []byte{8, 9, 10, 12, 0, 0x55} // LCP-only codes sent to a network control protocol
 		}
 		return mkPkt(codes[r.IntN(len(codes))], byte(r.IntN(256)), []byte{1, 2, 3}[:r.IntN(4)]), true
-	case "CRJcrit":
-		return mkPkt(cCodeRej, byte(r.IntN(256)), mkPkt(byte(1+r.IntN(4)), cur, nil)), true
-	case "CRJother":
-		return mkPkt(cCodeRej, byte(r.IntN(256)), mkPkt(cEchoReq, 1, u32(0))), true
-	case "PRJlcp":
-		return mkPkt(cProtRej, byte(r.IntN(256)), append(u16(0xC021), 1, 1, 0, 4)), true
-	case "PRJother":
-		return mkPkt(cProtRej, byte(r.IntN(256)), append(u16(0x8021), 1, 1, 0, 4)), true
 	case "ECHO0", "ECHO3", "ECHO4", "ECHO8":
 		n := int(kind[4] - '0')
 		d := make([]byte, n)
@@ -753,8 +761,42 @@ func (c *caseCtx) concretise(kind string, r *rand.Rand) (p []byte, ok bool) {
 			d[i] = byte(r.IntN(256))
 		}
 		return mkPkt(cEchoReq, byte(r.IntN(256)), d), true
+	}
+	return nil, false
+}
+
+// peerKind splits a kind such as "RTA@term" (optionally behind "RACE:") into the packet kind and the
+// identifier class; cls is empty for kinds without a class.
+func peerKind(kind string) (base, cls string) {
+	k := strings.TrimPrefix(kind, "RACE:")
+	if i := strings.IndexByte(k, '@'); i >= 0 {
+		return k[:i], k[i+1:]
+	}
+	return k, ""
+}
+
+// peerPacket builds a Terminate-Request/-Ack, Code-Reject, Protocol-Reject, Echo-Reply or Discard-Request
+// with the given identifier.
+func (c *caseCtx) peerPacket(base string, id byte, r *rand.Rand) ([]byte, bool) {
+	switch base {
+	case "RTR":
+		return mkPkt(cTermReq, id, []byte("bye")[:r.IntN(4)]), true
+	case "RTA":
+		return mkPkt(cTermAck, id, nil), true
+	case "CRJcrit":
+		return mkPkt(cCodeRej, id, mkPkt(byte(1+r.IntN(4)), c.mon.ourID, nil)), true
+	case "CRJother":
+		return mkPkt(cCodeRej, id, mkPkt(cEchoReq, 1, u32(0))), true
+	case "PRJlcp":
+		return mkPkt(cProtRej, id, append(u16(0xC021), 1, 1, 0, 4)), true
+	case "PRJother":
+		return mkPkt(cProtRej, id, append(u16(0x8021), 1, 1, 0, 4)), true
 	case "DISCARD":
-		return mkPkt(cDiscard, byte(r.IntN(256)), u32(0x01020304)), true
+		return mkPkt(cDiscard, id, u32(0x01020304)), true
+	case "EREP":
+		// Echo-Reply: the peer's magic number (or zero before one was negotiated) and sometimes trailing data
+		d := u32([]uint32{0x1BADCAFE, 0, ourMagic}[r.IntN(3)])
+		return mkPkt(cEchoRep, id, append(d, []byte{1, 2, 3, 4}[:r.IntN(5)]...)), true
 	}
 	return nil, false
 }
